@@ -55,7 +55,10 @@ def perturb(rng, muts):
         if k == 'no_initial':
             c = [m for m in muts if m.get('initial') is not None]
             if c:
-                rng.choice(c)['initial'] = None
+                m = rng.choice(c)
+                m['initial'] = None
+                if m['t'] == 'AddField' and not any(a == 'null' for a, _ in m['attrs']) and rng.random() < 0.5:
+                    m['attrs'] = m['attrs'] + [['null', 'false']]     # the same column, NOT NULL stated explicitly
                 return k, muts
         if k == 'retarget':
             c = [m for m in muts if 'model' in m]
@@ -181,6 +184,7 @@ def run_case(rep, prepared=True):
     except Exception:
         rep = dict(rep, sim_rejects=False)
     stored_before = vapp_sig_stored()
+    rep['stored_abs'] = sigs.abs_sig(stored_before)
     rep['pipeline_crash'] = pipeline_crashes(stored_before, rep['evolution'])
     before = evorig.snapshot()
     res = evorig.run_command(execute=True, interactive=False)
@@ -292,11 +296,39 @@ FAMILY = [
     {'spec0': _two(), 'valid': [_DELM], 'perturbation': 'family:extra AddField', 'evolution': [_ADD, _DELM]},
     {'spec0': _two(), 'valid': [_ADD], 'perturbation': 'family:extra DeleteModel', 'evolution': [_ADD, _DELM]},
     {'spec0': _two(), 'valid': [_ADD], 'perturbation': 'family:extra DeleteField', 'evolution': [_ADD, _DELF]},
+    # a NOT NULL column without an initial value, written in the three ways an evolution can say it
+    {'spec0': _two(), 'valid': [_ADD], 'perturbation': 'family:no initial (implicit NOT NULL)',
+     'evolution': [dict(_ADD, initial=None)]},
+    {'spec0': _two(), 'valid': [_ADD], 'perturbation': 'family:no initial (explicit null=False)',
+     'evolution': [dict(_ADD, initial=None, attrs=[['null', 'false']])]},
+    {'spec0': _two(), 'valid': [_ADD], 'perturbation': 'family:no initial (AddField null=True, then ChangeField null=False)',
+     'evolution': [dict(_ADD, initial=None, attrs=[['null', 'true']]),
+                   {'t': 'ChangeField', 'model': 'Alpha', 'field': 'x', 'ftype': None, 'initial': None,
+                    'attrs': [['null', 'false']]}]},
 ]
+
+
+def model_verdict(ctx, rep):
+    """what the Lean model of `simulate` says about this evolution, one mutation at a time, on the
+    stored signature: None (accepted) or the error kind"""
+    if not ctx.driver or 'stored_abs' not in rep:
+        return None
+    out = ctx.driver.ask([{'op': 'simulate', 'sig': rep['stored_abs'], 'ctx': {'app': 'vapp'},
+                           'mutations': [sigs.model_mutation(m) for m in rep['evolution']],
+                           'flags': {'rename_app_label_fixed': bool(ctx.variant.get('rename_app_label_fixed'))}}])[0]
+    return out.get('err') if out else None
 
 
 def judge(ctx, rep):
     short = {k: rep[k] for k in ('spec0', 'valid', 'perturbation', 'evolution', 'message')}
+    if rep.get('gate_passed') and not rep.get('dropped_by_changed_models_filter') and \
+            not rep.get('valid_only_after_optimisation'):
+        # the gate let the evolver start: the model of the simulation (C12_pre_* theorems) must accept the
+        # evolution too — a signature-equal result is not enough (a missing initial value is not in it)
+        err = model_verdict(ctx, rep)
+        if err:
+            rep['problems'].append('the upgrade was executed although the evolution is invalid one mutation at a '
+                                   'time (%s)' % err)
     for p in rep['problems']:
         ctx.fail(None, p, short)
     if rep.get('dropped_by_changed_models_filter'):
